@@ -188,10 +188,31 @@ type c18Case struct {
 	CutMid      bool
 	Stall       int // 0 none, 1 writer stalled until the backlog is full, 2 reader stalled, 3 alternating, 4 random us sleeps
 	Chunk       int
+	Pause       bool // the sender goes quiet in the middle of one frame for longer than any read timeout (played 30x faster)
+}
+
+// scaledDeadlineConn shortens every deadline the code under test arms by a factor of 30; code
+// that arms none never notices.
+type scaledDeadlineConn struct{ net.Conn }
+
+func scaleDeadline(t time.Time) time.Time {
+	if t.IsZero() {
+		return t
+	}
+	return time.Now().Add(time.Until(t) / 30)
+}
+func (c *scaledDeadlineConn) SetDeadline(t time.Time) error {
+	return c.Conn.SetDeadline(scaleDeadline(t))
+}
+func (c *scaledDeadlineConn) SetReadDeadline(t time.Time) error {
+	return c.Conn.SetReadDeadline(scaleDeadline(t))
+}
+func (c *scaledDeadlineConn) SetWriteDeadline(t time.Time) error {
+	return c.Conn.SetWriteDeadline(scaleDeadline(t))
 }
 
 func (k c18Case) String() string {
-	return fmt.Sprintf("frame-size=%d frames=%d cut-in-mid-frame=%v stall=%d chunk-mode=%d GOMAXPROCS=%d", k.Size, k.Count, k.CutMid, k.Stall, k.Chunk, runtime.GOMAXPROCS(0))
+	return fmt.Sprintf("frame-size=%d frames=%d cut-in-mid-frame=%v stall=%d chunk-mode=%d pause=%v GOMAXPROCS=%d", k.Size, k.Count, k.CutMid, k.Stall, k.Chunk, k.Pause, runtime.GOMAXPROCS(0))
 }
 
 func headerFor(size int) []byte {
@@ -258,7 +279,7 @@ func runC18(c *vCtx, scratch string, idx int64, k c18Case, paceTotal time.Durati
 				done <- fmt.Errorf("PANIC: %v", p)
 			}
 		}()
-		done <- handleConn(b, conf, false)
+		done <- handleConn(&scaledDeadlineConn{b}, conf, false)
 	}()
 	// feed
 	var sent [][]byte
@@ -327,7 +348,16 @@ func runC18(c *vCtx, scratch string, idx int64, k c18Case, paceTotal time.Durati
 		for i := 0; i < k.Count && werr == nil; i++ {
 			p := framePayload(i, k.Size, salt)
 			sent = append(sent, p)
-			werr = wrote(p)
+			if k.Pause && i == k.Count/2 && k.Size > 1 {
+				// the camera goes quiet half way through this frame (a 12 s silence at real speed)
+				if werr = wrote(p[:k.Size/2]); werr == nil {
+					time.Sleep(400 * time.Millisecond)
+					werr = wrote(p[k.Size/2:])
+				}
+				c.Count("connections_quiet_in_mid_frame", 1)
+			} else {
+				werr = wrote(p)
+			}
 			if paceTotal > 0 {
 				time.Sleep(paceTotal / time.Duration(k.Count))
 			}
@@ -491,6 +521,9 @@ func TestVerif_C18(t *testing.T) {
 				if k.Chunk == 1 && sz*n > 30000 {
 					k.Chunk = 2
 				}
+				if myIdx%6 == 5 && n > 0 {
+					k.Pause = true
+				}
 				c.Case(myIdx, func() interface{} { return k.String() }, func() { runC18(c, scratch, myIdx, k, 0) })
 			}
 		}
@@ -507,6 +540,9 @@ func TestVerif_C18(t *testing.T) {
 		k := c18Case{Size: rng.PickInt(5, 6, 16, 777, 1000, 4096, 4097, 39040), Count: rng.PickInt(0, 1, 2, 100, 255, 256, 257, 300, 600, 1500), Stall: rng.Intn(5), CutMid: rng.Chance(40), Chunk: rng.Intn(7)}
 		if k.Chunk == 1 && k.Size*k.Count > 30000 {
 			k.Chunk = 3
+		}
+		if myIdx%4 == 1 && k.Count > 0 {
+			k.Pause, k.Chunk = true, k.Chunk%4
 		}
 		c.Case(myIdx, func() interface{} { return k.String() }, func() { runC18(c, scratch, myIdx, k, 0) })
 	}
